@@ -1,6 +1,7 @@
 package sse
 
 import (
+	"math/rand"
 	"net/http"
 	"time"
 )
@@ -54,6 +55,11 @@ func vhC12Merge() {
 
 // The backoff controller through a symbolic sequence of events.
 func vhC12Logic() {
+	if verifParam("SIMPLE", 0) == 1 {
+		// one concrete configuration with jitter; only the random draws vary
+		vhC12LogicWith(Backoff{InitialInterval: 1000, Multiplier: 2, Jitter: 0.5, MaxRetries: 0})
+		return
+	}
 	cfg := Backoff{
 		InitialInterval: []time.Duration{1, 1000, 3 * time.Second}[verifChoose("initial", 3)],
 		Multiplier:      []float64{1, 1.5, 2}[verifChoose("mul", 3)],
@@ -65,7 +71,23 @@ func vhC12Logic() {
 	if verifParam("JITTER", 0) == 1 {
 		cfg.Jitter = []float64{0.5, 0.25, 0.9}[verifChoose("jitter", 3)]
 	}
+	vhC12LogicWith(cfg)
+}
+
+// vhExtremeSource (native replay of RANDEXTREMES=1 vectors): the generator's draws are the
+// recorded ones - 0, 1/2 or the largest float below 1 (Float64 = (Int63 & (2^53-1)) / 2^53).
+type vhExtremeSource struct{}
+
+func (vhExtremeSource) Int63() int64 {
+	return []int64{0, 1 << 52, 1<<53 - 1}[verifChoose("rand.Float64", 3)]
+}
+func (vhExtremeSource) Seed(int64) {}
+
+func vhC12LogicWith(cfg Backoff) {
 	ctl := cfg.new()
+	if verifParam("RANDEXTREMES", 0) == 1 {
+		ctl.rng = rand.New(vhExtremeSource{})
+	}
 	startNs := verifTimeNanos(ctl.start)
 	if !verifSymbolic() {
 		// native replay: the library reads the real clock, so the recorded clock values are
